@@ -730,6 +730,8 @@ def getitem(eng, base, idx):
     base = unwrap(base)
     if isinstance(idx, I.NpInt):
         idx = idx.v
+    if hasattr(base, "symbolic_getitem"):
+        return base.symbolic_getitem(eng, unwrap(idx))        # a table known by contract only (harness-supplied)
     if isinstance(base, dict):
         idx = unwrap(idx)
         if T.is_sym(idx):
